@@ -1,1 +1,1 @@
--- root of PyemvSpec
+import PyemvSpec.Basic
